@@ -44,6 +44,13 @@ pub fn eval_spec(f: FieldCfg, spec: &Spec, seed: u64) -> Result<Outcome, EvalErr
         FieldCfg::KoalaBear5 => kbq::eval_spec(spec, seed),
     }
 }
+pub fn eval_hand(f: FieldCfg, spec: &crate::hand::HSpec, seed: u64) -> Result<Outcome, EvalError> {
+    match f {
+        FieldCfg::BabyBear4 => bb::eval_hand(spec, seed),
+        FieldCfg::Goldilocks2 => gl::eval_hand(spec, seed),
+        FieldCfg::KoalaBear5 => kbq::eval_hand(spec, seed),
+    }
+}
 pub fn native_values(f: FieldCfg, spec: &Spec, seed: u64) -> Vec<Vec<u64>> {
     match f {
         FieldCfg::BabyBear4 => bb::native_values(spec, seed),
